@@ -9,7 +9,7 @@ import collections
 import itertools
 
 SEPS = (";", "; ", " ; ")
-STYLES = ("eq", "quoted", "bare")       # key=value | key "value" | key value
+STYLES = ("eq", "quoted", "bare", "eqq")       # key=value | key "value" | key value | key="value"
 MULTIS = ("comma", "repeated")
 
 GD = collections.namedtuple("GD", "sep trailing style multi")
@@ -53,6 +53,8 @@ def render_parts(d, items):
             joined = ",".join(g)
             if d.style == "eq":
                 parts.append(key + "=" + joined)
+            elif d.style == "eqq":
+                parts.append(key + '="' + joined + '"')
             elif d.style == "quoted":
                 parts.append(key + ' "' + joined + '"')
             else:
@@ -104,9 +106,9 @@ def expected_dialect(d, items, full=False):
     return {
         "leading semicolon": False,
         "trailing semicolon": d.trailing,
-        "quoted GFF2 values": d.style == "quoted",
+        "quoted GFF2 values": d.style in ("quoted", "eqq"),
         "field separator": d.sep if (obs["sep"] or full) else ";",
-        "keyval separator": "=" if d.style == "eq" else " ",
+        "keyval separator": "=" if d.style in ("eq", "eqq") else " ",
         "multival separator": ",",
         "fmt": fmt_of(d),
         "repeated keys": (d.multi == "repeated") if full else obs["repeated"],
@@ -131,7 +133,7 @@ def well_formed(d, items):
     if not items:
         return True
     k0, v0 = items[0]
-    if d.style == "eq" and not v0:
+    if d.style in ("eq", "eqq") and not v0:
         return False        # GFF3 is recognised by key= at the very start
     return True
 
